@@ -44,7 +44,7 @@ def classify(case):
 
 
 def main(ctx):
-    ctx.rule = ("round trips: 11 dtypes x 25 shapes (0-d, empty, rank<=4, header-padding boundaries) x 4 source layouts "
+    ctx.rule = ("round trips: 11 dtypes x 25 shapes (0-d, empty, rank<=4, header-padding boundaries) plus a header-length sweep (shape [k,1,...,1], rank 2-25, every residue of the unpadded header length mod 64, npy and npz) x 4 source layouts "
                 "(contiguous/transposed/strided/broadcast) through npy (all) and npz/safetensors (a fifth in quick, all in "
                 "thorough) with varied member names; multi-entry npz/safetensors archives (1-8 entries; names with one "
                 "and several dots, '.npy' suffixes, leading/trailing dots, unicode, 300-byte names, colliding and empty "
